@@ -10,7 +10,7 @@
 (***************************************************************************)
 EXTENDS HashObj, Json, IOUtils
 Traces == ndJsonDeserialize(IOEnv.TRACE_FILE)
-VARIABLES tid, i, st, nbad
+VARIABLES vvTid, vvPos, vvSt, vvBad
 C(name, exp) == [c |-> name, e |-> exp]
 ZSalt(a) == IF HBig(a) THEN <<ZeroW(4), ZeroW(4), ZeroW(4), ZeroW(4)>> ELSE <<ZeroW(2), ZeroW(2), ZeroW(2), ZeroW(2)>>
 Judge(a, s, e) ==
@@ -27,10 +27,10 @@ Judge(a, s, e) ==
                             \o (IF final /\ Len(e.out) # HOutLen(a) THEN <<C("digest-length", HOutLen(a))>> ELSE <<>>)
                             \o (IF ~final /\ Len(e.out) = HOutLen(a) /\ e.out # u.out THEN <<C("chaining-value", u.out)>> ELSE <<>>)
                             \o (IF ~final /\ e.bitcnt # u.st.pad.bitcnt THEN <<C("bitcnt-after-piece", u.st.pad.bitcnt)>> ELSE <<>>)]
-Init == tid \in 1..Len(Traces) /\ i = 0 /\ st = HInit(Traces[tid].alg, ZSalt(Traces[tid].alg)) /\ nbad = 0
-Next == /\ i < Len(Traces[tid].ev)
-        /\ \E j \in {Judge(Traces[tid].alg, st, Traces[tid].ev[i+1])} :
-           /\ st' = j.st /\ i' = i + 1 /\ nbad' = nbad + Len(j.bad) /\ UNCHANGED tid
-           /\ (j.bad # <<>> => PrintT(ToJson([tid |-> tid, step |-> i+1, bad |-> j.bad])))
-           /\ (i + 1 = Len(Traces[tid].ev) => PrintT(ToJson([tid |-> tid, done |-> TRUE, nbad |-> nbad'])))
+Init == vvTid \in 1..Len(Traces) /\ vvPos = 0 /\ vvSt = HInit(Traces[vvTid].alg, ZSalt(Traces[vvTid].alg)) /\ vvBad = 0
+Next == /\ vvPos < Len(Traces[vvTid].ev)
+        /\ \E j \in {Judge(Traces[vvTid].alg, vvSt, Traces[vvTid].ev[vvPos+1])} :
+           /\ vvSt' = j.st /\ vvPos' = vvPos + 1 /\ vvBad' = vvBad + Len(j.bad) /\ UNCHANGED vvTid
+           /\ (j.bad # <<>> => PrintT(ToJson([tid |-> vvTid, step |-> vvPos+1, bad |-> j.bad])))
+           /\ (vvPos + 1 = Len(Traces[vvTid].ev) => PrintT(ToJson([tid |-> vvTid, done |-> TRUE, nbad |-> vvBad'])))
 =============================================================================
